@@ -94,7 +94,7 @@ type IBatchOperator interface {
 	IsBatched() bool
 	BeginBatch() error
 	AddBatchKey(string)
-	AddBatchRsp(uint64, interface{})
+	AddBatchRsp(uint64, interface{}, func() (interface{}, error))
 	IsBatchable(string, string, [][]byte) bool
 	CommitBatch()
 	AbortBatchForError(err error)
@@ -103,6 +103,7 @@ type IBatchOperator interface {
 type kvbatchOperator struct {
 	batchReqIDList  []uint64
 	batchReqRspList []interface{}
+	batchRedoList   []func() (interface{}, error) // applies a batched command again after an abort
 	batchStart      time.Time
 	batching        bool
 	dupCheckMap     map[string]bool
@@ -133,9 +134,10 @@ func (bo *kvbatchOperator) AddBatchKey(pk string) {
 	bo.dupCheckMap[string(pk)] = true
 }
 
-func (bo *kvbatchOperator) AddBatchRsp(reqID uint64, v interface{}) {
+func (bo *kvbatchOperator) AddBatchRsp(reqID uint64, v interface{}, redo func() (interface{}, error)) {
 	bo.batchReqIDList = append(bo.batchReqIDList, reqID)
 	bo.batchReqRspList = append(bo.batchReqRspList, v)
+	bo.batchRedoList = append(bo.batchRedoList, redo)
 }
 
 func (bo *kvbatchOperator) IsBatchable(cmdName string, pk string, args [][]byte) bool {
@@ -159,15 +161,26 @@ func (bo *kvbatchOperator) AbortBatchForError(err error) {
 		return
 	}
 	bo.SetBatched(false)
-	batchCost := time.Since(bo.batchStart)
-	// write the future response or error
-	for _, rid := range bo.batchReqIDList {
-		bo.kvsm.w.Trigger(rid, err)
+	// The commands batched so far share the write batch with the command that
+	// failed, so their writes are gone with it although they did not fail.
+	// Whether a write is applied must not depend on which commands happened to
+	// share its batch (the grouping differs between replicas and between live
+	// apply and replay): apply them again, one by one and not batched.
+	for idx, rid := range bo.batchReqIDList {
+		v, rerr := bo.batchRedoList[idx]()
+		if rerr != nil {
+			bo.kvsm.store.AbortBatch()
+			bo.kvsm.w.Trigger(rid, rerr)
+		} else {
+			bo.kvsm.w.Trigger(rid, v)
+		}
 	}
+	batchCost := time.Since(bo.batchStart)
 	slow.LogSlowDBWrite(batchCost, slow.NewSlowLogInfo(bo.kvsm.fullNS, "batched", strconv.Itoa(len(bo.batchReqIDList))))
 	bo.dupCheckMap = make(map[string]bool)
 	bo.batchReqIDList = bo.batchReqIDList[:0]
 	bo.batchReqRspList = bo.batchReqRspList[:0]
+	bo.batchRedoList = bo.batchRedoList[:0]
 }
 
 func (bo *kvbatchOperator) CommitBatch() {
@@ -212,6 +225,7 @@ func (bo *kvbatchOperator) CommitBatch() {
 	}
 	bo.batchReqIDList = bo.batchReqIDList[:0]
 	bo.batchReqRspList = bo.batchReqRspList[:0]
+	bo.batchRedoList = bo.batchRedoList[:0]
 }
 
 type emptySM struct {
@@ -789,7 +803,7 @@ func (kvsm *kvStoreSM) ApplyRaftRequest(isReplaying bool, batch IBatchOperator, 
 							}).Observe(float64(len(cmd.Raw)))
 						}
 						if batch.IsBatched() {
-							batch.AddBatchRsp(reqID, v)
+							batch.AddBatchRsp(reqID, v, func() (interface{}, error) { return h(cmd, reqTs) })
 							if nodeLog.Level() > common.LOG_DETAIL {
 								kvsm.Infof("batching write command:%v, %v", cmdName, string(cmd.Raw))
 							}
